@@ -24,7 +24,8 @@ RULE = ('every (N,K) with N<=8 and K feasible (0..N^2-N directed, 0..N(N-1)/2 un
         '{4,8,16} (32 thorough), every cluster size, every K in 0..N^2-N at N<=8 (a slice above), 3 (10) seeds; makefractalCIJ for '
         'mx_lvl in {2,3} (4 thorough), E in {1,2,3,5,1.5,0.5}, every cluster size; maketoeplitzCIJ for N=2..12 and {16,24,40}, '
         's in {0.5,1,2,4,8}, K over the whole range for which the rejection loop still terminates, three forced-raise runs '
-        '(10001 recorded draws each; two replayed in quick, all in thorough, the direct oracle on all); makerandCIJdegreesfixed on the in/out degree sequences of random digraphs '
+        '(10001 recorded draws each; two replayed in quick, all in thorough, the direct oracle on all), and a large-K family '
+        '(N=400..600, K>=100000, wide s; direct oracle only: exact count, 0/1, diagonal; 3 runs quick, 20 thorough/escalated); makerandCIJdegreesfixed on the in/out degree sequences of random digraphs '
         'N=2..8 at densities .15-.7, sparse digraphs N=9..40 and N=150 (graphical by construction). Out-of-domain slice '
         '(K<0, K>cells, infeasible ring K, N not a power of two, sz_cl<=0 or >mx, mx_lvl<2, sum(inv)!=sum(outv), '
         'len(outv)<len(inv)): model and code must still agree (correspondence only, no property oracle). The draws of '
@@ -527,6 +528,27 @@ def run(ctx):
     one_toeplitz(2, 3, 1.0, int(r.randint(1 << 30)), force_replay=True, ood=True)
     one_toeplitz(3 if ctx.thorough else 2, -1, 1.0, int(r.randint(1 << 30)), force_replay=True, ood=True)
     one_toeplitz(1, 0, 1.0, int(r.randint(1 << 30)), ood=True)
+
+    # large K (>= 1e5): direct oracle only, plain integer seed (no recording, no replay) - a tolerance in the loop test of
+    # the rejection loop (np.isclose has rtol 1e-5) only shows from K = 100000 on; s is wide so that a sample is accepted quickly
+    bigK = [(400, 100000, 300.0)] if not ctx.thorough else [(400, 100000, 300.0), (500, 100000, 400.0), (450, 120000, 500.0), (600, 150000, 500.0)]
+    for (n, K, s) in bigK:
+        for sd in seeds(3 if not ctx.thorough else 5):
+            case = {'fn': 'maketoeplitzCIJ', 'n': n, 'k': K, 's': s, 'seed': sd, 'note': 'oracle only'}
+            ctx.case(case); ctx.count('toeplitz:K>=1e5')
+            try:
+                C = call(bct.maketoeplitzCIJ, n, K, s, seed=sd, _t=120.0)
+            except BCTParamError:
+                ctx.count('toeplitz:raised'); continue
+            except Timeout:
+                ctx.fail('maketoeplitzCIJ:timeout', 'did not return within 120 s', case); continue
+            except Exception as e:
+                ctx.fail('maketoeplitzCIJ:raises', 'raised %r' % (e,), case); continue
+            C = np.asarray(C)
+            if ctx.check(C.shape == (n, n), 'maketoeplitzCIJ:shape', 'not N x N', case):
+                ctx.check(is01(C), 'maketoeplitzCIJ:binary', 'entries outside {0,1}', case)
+                ctx.check(int(np.count_nonzero(C)) == K, 'maketoeplitzCIJ:count', '%d connections instead of %d' % (int(np.count_nonzero(C)), K), case)
+                ctx.check(not np.any(np.diag(C)), 'maketoeplitzCIJ:diagonal', 'diagonal not empty', case)
 
     # ------------------------------------------------------------ makerandCIJdegreesfixed
     def one_deg(inv, outv, sd, ood=False, aslist=False):
